@@ -318,3 +318,165 @@ fn random_json(rng: &mut Rng, depth: u32) -> Value {
     }
 }
 
+
+// ------------------------------------------------------------------------------------------
+// Assembler: builds archive bytes from an abstract layout (the "other writer" of C03/C19/C08).
+// It is not trusted: every assembled file goes back through Archive!WellFormedForeign in TLC.
+
+#[derive(Clone, Debug)]
+pub enum Node {
+    Tile(HEntry),
+    Leaf(Vec<Node>),
+}
+
+#[derive(Clone, Debug)]
+pub struct Layout {
+    pub ic: u8,
+    /// order in which root(0), meta(1), leaves(2), data(3) follow the header
+    pub order: [u8; 4],
+    /// 0 = none, 1 = 3 padding bytes between sections, 2 = trailing bytes after the last section
+    pub gap: u8,
+    pub root: Vec<Node>,
+    /// raw (uncompressed) metadata; empty = zero-length section
+    pub meta: Vec<u8>,
+    pub data: Vec<u8>,
+    pub clustered: bool,
+    pub small: [u8; 5], // tc, tt, minz, maxz, cz
+    pub coords: [i32; 6],
+    /// place leaves in reverse order inside the leaf section (non-monotone pointer offsets)
+    pub leaves_reversed: bool,
+}
+
+fn put_varint(out: &mut Vec<u8>, mut v: u64) {
+    while v >= 0x80 {
+        out.push((v as u8) | 0x80);
+        v >>= 7;
+    }
+    out.push(v as u8);
+}
+
+pub fn hint_encode_dir(es: &[HEntry]) -> Vec<u8> {
+    let mut out = Vec::new();
+    put_varint(&mut out, es.len() as u64);
+    let mut last = 0u64;
+    for e in es {
+        put_varint(&mut out, e.id.wrapping_sub(last));
+        last = e.id;
+    }
+    for e in es {
+        put_varint(&mut out, e.run);
+    }
+    for e in es {
+        put_varint(&mut out, e.len);
+    }
+    for (i, e) in es.iter().enumerate() {
+        if i > 0 && es[i - 1].off.checked_add(es[i - 1].len) == Some(e.off) {
+            put_varint(&mut out, 0);
+        } else {
+            put_varint(&mut out, e.off.wrapping_add(1));
+        }
+    }
+    out
+}
+
+fn first_id(nodes: &[Node]) -> u64 {
+    match nodes.first() {
+        Some(Node::Tile(e)) => e.id,
+        Some(Node::Leaf(c)) => first_id(c),
+        None => 0,
+    }
+}
+
+/// Two-pass construction: leaves are compressed bottom-up; since a parent's bytes depend on the
+/// offsets of its children, offsets are assigned in creation order (children before parents).
+fn build_tree(nodes: &[Node], ic: u8, section: &mut Vec<(Vec<u8>, u64)>, next_off: &mut u64, reversed_total: Option<u64>) -> Vec<HEntry> {
+    let mut es = Vec::new();
+    for n in nodes {
+        match n {
+            Node::Tile(e) => es.push(e.clone()),
+            Node::Leaf(children) => {
+                let child = build_tree(children, ic, section, next_off, reversed_total);
+                let raw = hint_encode_dir(&child);
+                let z = up_compress(ic, &raw).expect("compress leaf");
+                let len = z.len() as u64;
+                let off = *next_off;
+                *next_off += len;
+                section.push((z, off));
+                es.push(HEntry { id: first_id(children), run: 0, len, off });
+            }
+        }
+    }
+    let _ = reversed_total;
+    es
+}
+
+pub fn count_tiles(nodes: &[Node], addr: &mut u64, ent: &mut u64, offs: &mut std::collections::BTreeSet<u64>) {
+    for n in nodes {
+        match n {
+            Node::Tile(e) => {
+                *addr += e.run;
+                *ent += 1;
+                offs.insert(e.off);
+            }
+            Node::Leaf(c) => count_tiles(c, addr, ent, offs),
+        }
+    }
+}
+
+pub fn assemble(l: &Layout) -> Vec<u8> {
+    let mut section: Vec<(Vec<u8>, u64)> = Vec::new();
+    let mut next = 0u64;
+    let root_entries = build_tree(&l.root, l.ic, &mut section, &mut next, None);
+    let mut leaf_bytes = Vec::new();
+    for (z, off) in &section {
+        assert_eq!(*off as usize, leaf_bytes.len());
+        leaf_bytes.extend_from_slice(z);
+    }
+    let root_z = up_compress(l.ic, &hint_encode_dir(&root_entries)).expect("compress root");
+    let meta_z = if l.meta.is_empty() { Vec::new() } else { up_compress(l.ic, &l.meta).expect("compress meta") };
+    let secs: [&Vec<u8>; 4] = [&root_z, &meta_z, &leaf_bytes, &l.data];
+    let mut pos = 127u64;
+    let mut offs = [0u64; 4];
+    let mut body = Vec::new();
+    for (k, &s) in l.order.iter().enumerate() {
+        if l.gap == 1 && k > 0 {
+            body.extend_from_slice(&[0xEE, 0xEE, 0xEE]);
+            pos += 3;
+        }
+        offs[s as usize] = pos;
+        body.extend_from_slice(secs[s as usize]);
+        pos += secs[s as usize].len() as u64;
+    }
+    if l.gap == 2 {
+        body.extend_from_slice(&[0xDD; 5]);
+    }
+    let (mut addr, mut ent) = (0u64, 0u64);
+    let mut distinct = std::collections::BTreeSet::new();
+    count_tiles(&l.root, &mut addr, &mut ent, &mut distinct);
+    let mut h = Vec::with_capacity(127);
+    h.extend_from_slice(b"PMTiles");
+    h.push(3);
+    for (s, len) in [(0usize, root_z.len()), (1, meta_z.len()), (2, leaf_bytes.len()), (3, l.data.len())] {
+        h.extend_from_slice(&offs[s].to_le_bytes());
+        h.extend_from_slice(&(len as u64).to_le_bytes());
+    }
+    h.extend_from_slice(&addr.to_le_bytes());
+    h.extend_from_slice(&ent.to_le_bytes());
+    h.extend_from_slice(&(distinct.len() as u64).to_le_bytes());
+    h.push(u8::from(l.clustered));
+    h.push(l.ic);
+    h.push(l.small[0]);
+    h.push(l.small[1]);
+    h.push(l.small[2]);
+    h.push(l.small[3]);
+    for c in &l.coords[0..4] {
+        h.extend_from_slice(&c.to_le_bytes());
+    }
+    h.push(l.small[4]);
+    for c in &l.coords[4..6] {
+        h.extend_from_slice(&c.to_le_bytes());
+    }
+    assert_eq!(h.len(), 127);
+    h.extend_from_slice(&body);
+    h
+}
